@@ -391,7 +391,10 @@ CLEANUP:
 	/* free the last allocated basis, and if we wanted to save it, do so */
 	if (basis)
 	{
-		if (writebasis)
+		/* only an optimal solve leaves a basis in the problem: for a problem
+		 * diagnosed infeasible or unbounded there is nothing to write, and that
+		 * is not a failure of the run */
+		if (writebasis && status == QS_LP_OPTIMAL)
 		{
 			/* keep an earlier error: the exit status must not turn into success
 			 * because the basis could still be written */
